@@ -21,7 +21,12 @@ EXPLANATION = (
   "dict(zip(..)) unit maps have equal lengths and land in _UNITS, interval aliases and the units "
   "_parse_interval lets through are units, Delta.add_interval handles months/years itself and "
   "hands only timedelta keywords to timedelta; (R4) every raise reachable from Schedule.__init__ "
-  "raises ValueError and every lookup in a module-level table is guarded by a membership test. "
+  "raises ValueError and every lookup in a module-level table is guarded by a membership test; "
+  "(R5) because unit letters that differ only in case mean different units (read from "
+  "_SHORT_UNITS), the Schedule evaluated by SCHEDULE(spec) is parsed from the spec as written: "
+  "no case folding between the spec and the regex match, and a memo of parsed schedules is keyed "
+  "by the spec itself. Conditions are read from the CFG (either polarity, early exits, chained "
+  "conditional expressions or if/return sequences), operands through the locals that name them. "
   "Not decided: the series arithmetic (Delta.add_to, DATEADD, the slot ordering assumption), "
   "overflow of huge counts.")
 
@@ -38,6 +43,7 @@ def check(run, repo, tier):
   r2_groups(run, w, mod, ce)
   r3_units(run, w, mod, ce)
   r4_errors(run, w, mod, ce)
+  r5_exact_text(run, w, mod, ce)
 
 
 def _regex(ce, name):
@@ -91,49 +97,74 @@ def r1_slot_tables(run, w, mod, ce):
     run.ob(R1, "%s._ALLOWED_SLOTS_BY_UNIT" % M, "%r: %r" % (unit, types),
            "the slot types allowed for a unit are slot types that exist (m.group(slot_type) and "
            "_SLOT_PARSERS[slot_type] are then defined) and the unit is a unit", ok, fi=None)
-  # the default used by _parse_slot when the unit is not listed
+  # the default used by _parse_slot when the unit is not listed, and the dispatch
   ps = w.fn(M + "._parse_slot")
+  v = H.View(ps)
+  cfg = ps.cfg
+  disp = [(n, c) for (n, c, nm) in ps.calls() if isinstance(c.func, ast.Subscript) and
+          text(c.func.value) == "_SLOT_PARSERS"]
+  if len(disp) != 1:
+    raise AnalysisError("%s._parse_slot: one dispatch _SLOT_PARSERS[<type>](<match>) expected" % M)
+  dn, dc = disp[0]
+  loops = [l for l in v.enclosing_loops(dn.stmt) if isinstance(l, ast.For) and
+           isinstance(l.target, ast.Name) and
+           v.t(dc.func.slice, v.loop_map(l)) == "_v0"]
+  if len(loops) != 1:
+    raise AnalysisError("%s._parse_slot: the dispatch key is not the variable of a loop over the "
+                        "allowed slot types" % M)
+  lp = loops[0]
+  tm = v.loop_map(lp)
+  allowed_e = v.x(lp.iter)
   dflt = None
-  for s in walk_no_nested(ps.node):
-    if isinstance(s, ast.Assign) and isinstance(s.value, ast.BoolOp) and \
-        isinstance(s.value.op, ast.Or) and len(s.value.values) == 2 and \
-        "_ALLOWED_SLOTS_BY_UNIT" in text(s.value.values[0]):
-      try:
-        dflt = ce.ev(s.value.values[1])
-      except AnalysisError:
-        dflt = None
-      var = text(s.targets[0])
+  if isinstance(allowed_e, ast.BoolOp) and isinstance(allowed_e.op, ast.Or) and \
+      len(allowed_e.values) == 2 and "_ALLOWED_SLOTS_BY_UNIT" in text(allowed_e.values[0]):
+    try:
+      dflt = ce.ev(allowed_e.values[1])
+    except AnalysisError:
+      dflt = None
   if dflt is None:
     raise AnalysisError("%s._parse_slot: default slot types not found" % M)
   run.ob(R1, ps.qualname, "default slot types %r" % (dflt,), "the fallback slot types exist",
          isinstance(dflt, tuple) and set(dflt) <= set(parsers), fi=ps.fi)
-  # the dispatch uses the same name for the group and the parser
-  loops = [s for s in walk_no_nested(ps.node) if isinstance(s, ast.For) and text(s.iter) == var]
-  ok = False
-  if len(loops) == 1:
-    tv = text(loops[0].target)
-    tests = [s for s in loops[0].body if isinstance(s, ast.If)]
-    ok = len(tests) == 1 and text(tests[0].test) == "m.group(%s)" % tv and \
-        any(text(c.func) == "_SLOT_PARSERS[%s]" % tv and [text(a) for a in c.args] == ["m"]
-            for c in calls_in(tests[0].body)) and \
-        isinstance(tests[0].body[-1], ast.Break) and bool(loops[0].orelse) and \
-        any(isinstance(x, ast.Raise) for x in loops[0].orelse)
+  unit_p = ps.fi.params()[1]
+  run.ob(R1, ps.qualname, "allowed = _ALLOWED_SLOTS_BY_UNIT.get(%s) or <default>" % unit_p,
+         "the slot types tried are those allowed for the unit of the interval",
+         text(allowed_e.values[0]) == "_ALLOWED_SLOTS_BY_UNIT.get(%s)" % unit_p, fi=ps.fi)
+  # the dispatch uses the same name for the group and the parser, on the match of _SLOT_RE
+  margs = [v.t(a) for a in dc.args]
+  mvar = margs[0] if len(margs) == 1 and not dc.keywords else None
+  is_match = mvar is not None and mvar.startswith("_SLOT_RE.match(")
+  facts = v.facts_at(dc, start=tm.head, mapping=tm)
+  guarded = mvar is not None and ("%s.group(_v0)" % mvar, True) in facts
+  outer = [l for l in v.enclosing_loops(lp)]
+  removed = {v.loop_head(l) for l in outer}
+  stops = not (cfg.reach_after({dn.id}, removed=removed) & {tm.head})
+  # no allowed type matched: every way out of the loop that did not dispatch raises
+  esc = cfg.path(tm.head, removed | {cfg.exit.id}, removed={dn.id}, after=True)
+  ok = is_match and guarded and stops and esc is None
   run.ob(R1, ps.qualname, "for t in allowed: if m.group(t): _SLOT_PARSERS[t](m); break / else: "
          "raise", "the parser run is the one of the group that matched, and a slot type that is "
-         "not allowed for the unit is rejected", ok, fi=ps.fi)
+         "not allowed for the unit is rejected", ok,
+         witness=None if ok else "match=%s guarded=%s stops=%s escape=%s"
+         % (is_match, guarded, stops, cfg.describe_path(esc) if esc else None), fi=ps.fi)
 
 
-def _match_var_regex(fn, mod, ce, slot_parsers, var):
-  """Which regex constant produced the match object `var` in function fn?"""
-  for s in walk_no_nested(fn.node):
-    if isinstance(s, ast.Assign) and text(s.targets[0]) == var and \
-        isinstance(s.value, ast.Call) and isinstance(s.value.func, ast.Attribute) and \
-        s.value.func.attr in ("match", "search", "fullmatch") and \
-        isinstance(s.value.func.value, ast.Name):
-      return s.value.func.value.id
-  if fn.fi.name in slot_parsers.values() and fn.fi.params() and fn.fi.params()[0] == var:
+def _match_regex(v, fn, recv, slot_parsers):
+  """Which regex constant produced the match object `recv` (receiver of .group) in fn?"""
+  e = v.res(recv)
+  if isinstance(e, ast.Call) and isinstance(e.func, ast.Attribute) and \
+      e.func.attr in ("match", "search", "fullmatch") and isinstance(e.func.value, ast.Name):
+    return e.func.value.id
+  if isinstance(e, ast.Name) and fn.fi.name in slot_parsers.values() and fn.fi.params() and \
+      fn.fi.params()[0] == e.id and not v._nonplain_defs(e.id) - {v.ENTRY}:
     return "_SLOT_RE"     # called as _SLOT_PARSERS[t](m) with m = _SLOT_RE.match(part) (R1)
   return None
+
+
+def _is_group_read(c):
+  return isinstance(c, ast.Call) and isinstance(c.func, ast.Attribute) and \
+      c.func.attr == "group" and len(c.args) == 1 and not c.keywords and \
+      isinstance(c.args[0], ast.Constant) and isinstance(c.args[0].value, str)
 
 
 def r2_groups(run, w, mod, ce):
@@ -145,21 +176,20 @@ def r2_groups(run, w, mod, ce):
   cache = {}
   for fi in sorted(mod.functions.values(), key=lambda f: f.node.lineno):
     fn = w.fn_of(fi)
-    reads = []     # (call m.group('x'), match var)
-    for c in calls_in(fi.node.body):
-      if isinstance(c.func, ast.Attribute) and c.func.attr == "group" and \
-          isinstance(c.func.value, ast.Name) and len(c.args) == 1 and \
-          isinstance(c.args[0], ast.Constant) and isinstance(c.args[0].value, str):
-        reads.append((c, c.func.value.id))
+    reads = [c for c in calls_in(fi.node.body) if _is_group_read(c)]
     if not reads:
       continue
-    for (c, mv) in reads:
-      rname = _match_var_regex(fn, mod, ce, parsers, mv)
+    v = H.View(fn)
+    rx_of = {}
+    for c in reads:
+      rname = _match_regex(v, fn, c.func.value, parsers)
       if rname is None:
-        raise AnalysisError("%s: cannot tell which regex produced %s" % (fi.qualname, mv))
+        raise AnalysisError("%s: cannot tell which regex produced %s"
+                            % (fi.qualname, short(c.func.value)))
       if rname not in cache:
         rx = _regex(ce, rname)
         cache[rname] = (rx, H.regex_groups(rx))
+      rx_of[id(c)] = rname
       rx, groups = cache[rname]
       g = groups.get(c.args[0].value)
       ok = g is not None
@@ -173,49 +203,45 @@ def r2_groups(run, w, mod, ce):
           p = p.parent
         ok = owner[fi.name] in chain[1:]
         where = "a group inside (?P<%s>...) of %s" % (owner[fi.name], rname)
-      run.ob(R2, fi.qualname, "%s.group(%r)" % (mv, c.args[0].value),
+      run.ob(R2, fi.qualname, "<match>.group(%r)" % (c.args[0].value,),
              "the name read is %s (an unknown name raises IndexError/error, another "
              "alternative's group is always None)" % where, ok, fi=fi, node=c)
     # int(...) applications
     for c in calls_in(fi.node.body):
       if not (dotted(c.func) == "int" and len(c.args) == 1):
         continue
-      _int_application(run, R2, fn, c, reads, cache, owner, mod, ce, parsers)
+      _int_application(run, R2, fn, v, c, rx_of, cache, owner)
 
 
-def _group_of_expr(fn, e, reads):
-  """(group name, match var, guarded_by_or_default, via variable name or None)"""
+def _group_of_expr(v, e):
+  """(group read call, guarded by `or <int>`) for an int() operand, through locals."""
   guarded = False
+  e = v.res(e)
   if isinstance(e, ast.BoolOp) and isinstance(e.op, ast.Or) and len(e.values) == 2 and \
       isinstance(e.values[1], ast.Constant) and isinstance(e.values[1].value, int):
     guarded = True
-    e = e.values[0]
-  via = None
-  if isinstance(e, ast.Name):
-    vals = [s.value for s in walk_no_nested(fn.node) if isinstance(s, ast.Assign) and
-            len(s.targets) == 1 and text(s.targets[0]) == e.id]
-    if len(vals) != 1:
-      return None
-    via = e.id
-    e = vals[0]
-  for (c, mv) in reads:
-    if e is c:
-      return (c.args[0].value, mv, guarded, via)
+    e = v.res(e.values[0])
+  if _is_group_read(e):
+    return e, guarded
   return None
 
 
-def _int_application(run, R2, fn, call, reads, cache, owner, mod, ce, parsers):
+def _int_application(run, R2, fn, v, call, rx_of, cache, owner):
   fi = fn.fi
-  info = _group_of_expr(fn, call.args[0], reads)
+  info = _group_of_expr(v, call.args[0])
   if info is None:
     # int() of something that is not a regex group: nothing to decide here, but say so
     if any(isinstance(x, ast.Call) and isinstance(x.func, ast.Attribute) and x.func.attr == "group"
-           for x in ast.walk(call.args[0])):
+           for x in ast.walk(v.x(call.args[0]))):
       raise AnalysisError("%s: int() applied to a group expression outside the supported idioms: "
                           "%s" % (fi.qualname, short(call)))
     return
-  gname, mv, guarded, via = info
-  rname = _match_var_regex(fn, mod, ce, parsers, mv)
+  read, guarded = info
+  rname = rx_of.get(id(read))
+  if rname is None:
+    raise AnalysisError("%s: int() of a group read that is not part of this function"
+                        % fi.qualname)
+  gname = read.args[0].value
   rx, groups = cache[rname]
   g = groups.get(gname)
   if g is None:
@@ -232,10 +258,12 @@ def _int_application(run, R2, fn, call, reads, cache, owner, mod, ce, parsers):
     if mand:
       certain, why = True, "the group takes part in every match of its slot type"
     else:
-      alt = _other_arm_tested(fn, call, g, groups, reads, via)
+      alt = _other_arm_tested(v, call, read, g, groups)
       if alt is not None:
-        certain, why = True, "else-branch of `if %s`, the other arm of the same alternation" % alt
-  run.ob(R2, fi.qualname, short(call), "int() is given text that consists of digits only "
+        certain, why = True, "reached only when %s is empty, the other arm of the same " \
+            "alternation" % alt
+  run.ob(R2, fi.qualname, "int(<match>.group(%r)%s)" % (gname, " or <int>" if guarded else ""),
+         "int() is given text that consists of digits only "
          "(ValueError-free) and is never None (TypeError-free): digits=%s, matched: %s"
          % (digits, why or "NOT ESTABLISHED"), digits and certain, fi=fi, node=call)
 
@@ -253,19 +281,19 @@ def _mandatory_within(g, scope_top):
   return scope_top is None
 
 
-def _other_arm_tested(fn, call, g, groups, reads, via):
-  """int(x) sits in the else-branch of `if <y>` where y holds the group of the *other* arm of
-  the two-way alternation g belongs to, both arms being made of that one group up to the point
-  where they differ, and y's group cannot match the empty string."""
-  st = H.stmt_of(fn.node, call)
-  chain = enclosing_chain(fn.node, st)
-  for (s, fld) in reversed(chain):
-    if isinstance(s, ast.If) and fld == "orelse" and isinstance(s.test, ast.Name):
-      info = _group_of_expr(fn, s.test, reads)
-      if info is None:
+def _other_arm_tested(v, call, read, g, groups):
+  """int(x) is evaluated only where the group of the *other* arm of the two-way alternation g
+  belongs to is known to be falsy (`if other: ... else: int(x)`, `if not other: int(x)`, an early
+  return ...), both arms being made of that one group up to the point where they differ, and the
+  other group unable to match the empty string (so falsy means: did not take part)."""
+  recv = v.t(read.func.value)
+  for (a, pol) in v.facts_at(call):
+    if pol is not False:
+      continue
+    for name, other in groups.items():
+      if not isinstance(name, str) or other is g:
         continue
-      other = groups.get(info[0])
-      if other is None or other is g:
+      if a != "%s.group(%r)" % (recv, name):
         continue
       if other.parent is not g.parent or len(g.branch_path) != 1 or \
           len(other.branch_path) != 1:
@@ -277,7 +305,7 @@ def _other_arm_tested(fn, call, g, groups, reads, via):
         continue       # a group that can match '' is falsy although it matched
       if not (g.arm_mandatory and other.arm_mandatory and g.branch_certain):
         continue
-      return s.test.id
+      return name
   return None
 
 
@@ -289,26 +317,43 @@ def r3_units(run, w, mod, ce):
   if not (isinstance(units, tuple) and all(isinstance(u, str) for u in units)):
     raise AnalysisError("%s._UNITS is not a tuple of names" % M)
   rd = w.fn(M + "._round_down_to_unit")
-  rets = [s for s in walk_no_nested(rd.node) if isinstance(s, ast.Return)]
-  if len(rets) != 1 or not isinstance(rets[0].value, ast.IfExp):
-    raise AnalysisError("%s._round_down_to_unit is not one conditional chain" % M)
+  rv = H.View(rd)
   up = rd.fi.params()[1]
-  seen = []
-  e = rets[0].value
-  while isinstance(e, ast.IfExp):
-    t = e.test
-    if not (isinstance(t, ast.Compare) and len(t.ops) == 1 and isinstance(t.ops[0], ast.Eq) and
-            text(t.left) == up and isinstance(t.comparators[0], ast.Constant)):
-      raise AnalysisError("_round_down_to_unit: test outside the subset: %s" % short(t))
-    seen.append(t.comparators[0].value)
-    e = e.orelse
+  arms = H.decision_arms(rd.node)
+  seen, final = [], []
+  for a in arms:
+    pos, neg, other = [], [], []
+    for (atom, pol) in a.facts(rv):
+      c = H.eq_const(atom)
+      if c is not None and c[0] == up and isinstance(c[1], str):
+        (pos if pol else neg).append(c[1])
+      else:
+        other.append(atom)
+    if other:
+      raise AnalysisError("_round_down_to_unit: test outside the subset: %s" % other[0])
+    if len(pos) == 1 and a.kind == "return":
+      seen.append(pos[0])
+    elif not pos:
+      final.append((a, neg))
+    else:
+      raise AnalysisError("_round_down_to_unit: an arm tests the unit for two values")
   run.ob(R3, rd.qualname, "chain covers %s" % (seen,), "every unit an interval can have is "
          "rounded by its own arm (none falls through to the error arm, none is tested twice)",
          sorted(seen) == sorted(units) and len(set(seen)) == len(seen), fi=rd.fi)
-  fails = isinstance(e, ast.Call) and dotted(e.func) in mod.functions and \
-      _only_raises_valueerror(mod.functions[dotted(e.func)])
-  run.ob(R3, rd.qualname, "final arm: %s" % short(e), "an unknown unit is a ValueError", fails,
-         fi=rd.fi)
+  fails = len(final) == 1 and sorted(final[0][1]) == sorted(seen)
+  if fails:
+    fa = final[0][0]
+    e = fa.value
+    if fa.kind == "raise":
+      fails = isinstance(e, ast.Call) and dotted(e.func) == "ValueError"
+    elif fa.kind == "return":
+      fails = isinstance(e, ast.Call) and dotted(e.func) in mod.functions and \
+          _only_raises_valueerror(mod.functions[dotted(e.func)])
+    else:
+      fails = False
+  run.ob(R3, rd.qualname, "final arm: %s" % (short(final[0][0].value) if final and
+                                             final[0][0].value is not None else "<none>"),
+         "an unknown unit is a ValueError", fails, fi=rd.fi)
   vu = ce.name("_VALID_UNITS")
   run.ob(R3, "%s._VALID_UNITS" % M, "== set(_UNITS)", "the units _parse_interval lets through "
          "are exactly the units the rest of the module handles", vu == set(units), fi=None)
@@ -326,28 +371,40 @@ def r3_units(run, w, mod, ce):
         v[1] in units
     run.ob(R3, "%s._INTERVAL_ALIASES" % M, "%r: %r" % (k, v), "an alias stands for a positive "
            "count of a known unit", ok, fi=None)
-  # _parse_interval: unit is mapped through the singular table and then must be a valid unit
+  # _parse_interval: the unit returned is known to be a valid unit
   pi = w.fn(M + "._parse_interval")
+  pv = H.View(pi)
   cfg = pi.cfg
-  gates = [n.id for n in cfg.nodes if n.kind == "if" and
-           text(n.stmt.test) == "unit not in _VALID_UNITS" and
-           any(isinstance(x, ast.Raise) for x in n.stmt.body)]
-  rets = [n.id for n in cfg.nodes if n.kind == "return" and isinstance(n.stmt.value, ast.Tuple)]
+  rets = [(n, pv.res(n.stmt.value)) for n in cfg.nodes if n.kind == "return" and
+          n.stmt.value is not None]
+  pairs = [(n, e) for (n, e) in rets if isinstance(e, ast.Tuple) and len(e.elts) == 2]
+  ok = bool(pairs)
+  for (n, e) in pairs:
+    at = pv.resolve(n.stmt.value)[1]
+    unit_t = pv.t(e.elts[1], at=at)
+    ok = ok and ("%s in _VALID_UNITS" % unit_t, True) in pv.cfg_facts(n.id)
   run.ob(R3, pi.qualname, "if unit not in _VALID_UNITS: raise", "a parsed interval unit is a "
-         "unit before it is returned", bool(gates) and bool(rets) and
-         all(cfg.dominated_by(r, gates) for r in rets), fi=pi.fi)
+         "unit before it is returned", ok, fi=pi.fi)
   # Delta.add_interval: months / years by hand, everything else is a timedelta keyword
   ai = w.fn(M + ".Delta.add_interval")
+  av = H.View(ai)
   up = ai.fi.params()[2]
-  own = set()
-  for s in walk_no_nested(ai.node):
-    if isinstance(s, ast.If) and isinstance(s.test, ast.Compare) and \
-        text(s.test.left) == up and isinstance(s.test.ops[0], ast.Eq) and \
-        isinstance(s.test.comparators[0], ast.Constant):
-      own.add(s.test.comparators[0].value)
   td = [c for c in calls_in(ai.node.body) if dotted(c.func) == "timedelta" and
         any(k.arg is None for k in c.keywords)]
-  ok = len(td) == 1 and (set(units) - own) <= TIMEDELTA_KWARGS and own <= set(units)
+  own = set()
+  ok = len(td) == 1
+  if ok:
+    kw = [k.value for k in td[0].keywords if k.arg is None]
+    d = av.res(kw[0]) if len(kw) == 1 else None
+    ok = isinstance(d, ast.Dict) and len(d.keys) == 1 and av.t(d.keys[0]) == up and \
+        not td[0].args and all(k.arg is None for k in td[0].keywords)
+    for (atom, pol) in av.facts_at(td[0]):
+      c = H.eq_const(atom)
+      if c is not None and c[0] == up and pol is False:
+        own.add(c[1])
+      else:
+        ok = False       # the timedelta arm is restricted by something else
+  ok = ok and (set(units) - own) <= TIMEDELTA_KWARGS and own <= set(units)
   run.ob(R3, ai.qualname, "units handled by hand %s, the rest passed as timedelta(**{unit: n})"
          % sorted(own), "every unit that is not handled explicitly is a keyword datetime."
          "timedelta accepts (anything else would be a TypeError)", ok, fi=ai.fi)
@@ -400,49 +457,238 @@ def r4_errors(run, w, mod, ce):
   for q in sorted(seen):
     fi = seen[q]
     fn = w.fn_of(fi)
-    cfg = fn.cfg
-    for n in cfg.nodes:
+    v = H.View(fn)
+    for n in fn.cfg.nodes:
       for e in n.exprs:
         for x in walk_no_nested(e):
           if isinstance(x, ast.Subscript) and isinstance(x.ctx, ast.Load) and \
               isinstance(x.value, ast.Name) and x.value.id in tables and \
-              x.value.id in mod.assigns and not isinstance(x.slice, ast.Constant):
-            tname, key = x.value.id, text(x.slice)
+              x.value.id in mod.assigns and not isinstance(x.slice, ast.Constant) and \
+              not v.reaching(x.value.id, n.id):
+            tname = x.value.id
             if tname == "_SLOT_PARSERS":
               continue      # keyed by an allowed slot type: R1
-            guards = set()
-            for g in cfg.nodes:
-              if g.kind != "if":
-                continue
-              t = g.stmt.test
-              if isinstance(t, ast.Compare) and len(t.ops) == 1 and text(t.left) == key and \
-                  text(t.comparators[0]) == tname:
-                if isinstance(t.ops[0], ast.NotIn) and \
-                    all(isinstance(b, ast.Raise) for b in g.stmt.body[-1:]):
-                  guards.add(g.id)       # falls through only when key in table
-                elif isinstance(t.ops[0], ast.In):
-                  # only the body of the guard is protected
-                  body_nodes = {m.id for m in cfg.nodes if m.stmt is not None and
-                                any(m.stmt is y for b in g.stmt.body for y in ast.walk(b))}
-                  if n.id in body_nodes:
-                    guards.add(g.id)
-            # the key is not rebound between guard and use
-            ok = bool(guards) and cfg.dominated_by(n.id, guards)
-            run.ob(R4, q, "%s[%s]" % (tname, key), "the lookup is preceded by a membership "
-                   "test (a missing key would be a KeyError, not a ValueError)", ok, fi=fi,
-                   node=x)
+            key = v.t(x.slice)
+            ok = ("%s in %s" % (key, tname), True) in v.facts_at(x)
+            run.ob(R4, q, "%s[%s]" % (tname, short(x.slice, 40)), "the lookup is preceded by a "
+                   "membership test (a missing key would be a KeyError, not a ValueError)", ok,
+                   fi=fi, node=x)
   # positional parts[0] / parts[1] after the length check
   init = w.fn(M + ".Schedule.__init__")
-  cfg = init.cfg
-  gate = [n.id for n in cfg.nodes if n.kind == "if" and
-          text(n.stmt.test) in ("len(parts) != 2", "len(parts) < 2") and
-          any(isinstance(b, ast.Raise) for b in n.stmt.body)]
-  uses = [n.id for n in cfg.nodes if n.stmt is not None and n.kind == "stmt" and
-          any(isinstance(x, ast.Subscript) and text(x.value) == "parts"
-              for e in n.exprs for x in ast.walk(e))]
+  iv = H.View(init)
+  spec = init.fi.params()[1]
+  uses = []
+  for n in init.cfg.nodes:
+    for e in n.exprs:
+      for x in walk_no_nested(e):
+        if isinstance(x, ast.Subscript) and isinstance(x.ctx, ast.Load) and \
+            isinstance(x.slice, ast.Constant) and isinstance(x.slice.value, int):
+          base = iv.t(x.value)
+          if base.startswith("%s.split(" % spec):
+            uses.append((x, base))
+  ok = bool(uses)
+  for (x, base) in uses:
+    f = iv.facts_at(x)
+    ok = ok and (("2 == len(%s)" % base, True) in f or ("len(%s) < 2" % base, False) in f or
+                 ("1 < len(%s)" % base, True) in f or ("2 <= len(%s)" % base, True) in f)
   run.ob(R4, init.qualname, "if len(parts) != 2: raise ValueError", "a spec without ':' is "
-         "rejected before its halves are indexed", bool(gate) and bool(uses) and
-         all(cfg.dominated_by(u, gate) for u in uses), fi=init.fi)
+         "rejected before its halves are indexed", ok, fi=init.fi)
+
+
+# ------------------------------------------------------------------------------------------ R5
+
+CASE_FOLDING = ("lower", "upper", "casefold", "title", "capitalize", "swapcase")
+
+
+def _folds_case(e):
+  return any(isinstance(x, ast.Call) and isinstance(x.func, ast.Attribute) and
+             x.func.attr in CASE_FOLDING for x in ast.walk(e))
+
+
+def _mentions(e, name):
+  return any(isinstance(x, ast.Name) and x.id == name for x in ast.walk(e))
+
+
+def r5_exact_text(run, w, mod, ce):
+  """The slot part of a spec is case-sensitive (`+2m` months, `+2M` minutes): the Schedule that
+  answers SCHEDULE(spec) must be parsed from the spec's own text, and a memo of parsed schedules
+  must not identify specs that differ in letter case."""
+  R5 = run.rule("C35-R5", "the schedule that is evaluated is parsed from the exact text of the "
+                "spec (no case folding on the way, no memo keyed by a case-folded spec)", floor=3)
+  # premise, read from the tables: unit letters that differ only by case mean different units
+  sensitive = []
+  for name in ("_SHORT_UNITS",):
+    z = ce.name(name)
+    pairs = z.pairs() if isinstance(z, H.ZipDict) else z
+    keys = [k for k, _ in pairs]
+    folded = {}
+    for k, val in pairs:
+      folded.setdefault(k.lower(), set()).add(val)
+    if any(len(x) > 1 for x in folded.values()):
+      sensitive.append(name)
+  if not sensitive:
+    run.note("C35-R5: no table distinguishes keys by letter case; nothing to decide")
+    return
+  sch = w.fn(M + ".SCHEDULE")
+  v = H.View(sch)
+  spec = sch.fi.params()[0]
+  ser = [c for c in calls_in(sch.node.body) if isinstance(c.func, ast.Attribute) and
+         c.func.attr == "series"]
+  if len(ser) != 1:
+    raise AnalysisError("%s.SCHEDULE: one <schedule>.series(...) call expected" % M)
+  _provenance(run, R5, w, mod, sch, v, ser[0].func.value, spec, 0)
+  # inside the parser: spec -> slot texts -> regex match, unfolded
+  init = w.fn(M + ".Schedule.__init__")
+  iv = H.View(init)
+  ispec = init.fi.params()[1]
+  calls = [c for c in calls_in(init.node.body) if dotted(c.func) == "_parse_slot"]
+  if len(calls) != 1:
+    raise AnalysisError("%s.Schedule.__init__: one _parse_slot call expected" % M)
+  src = _source_text(iv, calls[0], calls[0].args[0])
+  run.ob(R5, init.qualname, "_parse_slot(<part of %s>)" % ispec, "the slot texts handed to the "
+         "slot parser are pieces of the spec as written: %s" % short(src, 80),
+         _mentions(src, ispec) and not _folds_case(src), fi=init.fi, node=calls[0])
+  ps = w.fn(M + "._parse_slot")
+  pv = H.View(ps)
+  p0 = ps.fi.params()[0]
+  ms = [c for c in calls_in(ps.node.body) if isinstance(c.func, ast.Attribute) and
+        c.func.attr == "match" and text(c.func.value) == "_SLOT_RE"]
+  if len(ms) != 1:
+    raise AnalysisError("%s._parse_slot: one _SLOT_RE.match call expected" % M)
+  src = _source_text(pv, ms[0], ms[0].args[0])
+  run.ob(R5, ps.qualname, "_SLOT_RE.match(<part of %s>)" % p0, "the text matched against the "
+         "slot regex (whose `unit` group is looked up case-sensitively in %s) is a piece of the "
+         "slot text as written: %s" % (", ".join(sensitive), short(src, 80)),
+         _mentions(src, p0) and not _folds_case(src), fi=ps.fi, node=ms[0])
+
+
+def _source_text(v, call, arg):
+  """The argument with locals expanded; a loop / comprehension variable is replaced by the
+  iterable it ranges over (enough to see where the text comes from)."""
+  e = v.x(arg)
+  for _ in range(4):
+    changed = False
+    for y in list(ast.walk(e)):
+      if not isinstance(y, ast.Name):
+        continue
+      src = _range_of(v, call, y.id)
+      if src is not None:
+        e = H._Replace(y.id, src).visit(e)
+        changed = True
+        break
+    if not changed:
+      break
+  return e
+
+
+def _range_of(v, call, name):
+  """iterable a loop / comprehension variable `name` visible at `call` ranges over"""
+  st = v.node_of(call).stmt
+  for y in ast.walk(st):
+    if isinstance(y, ast.comprehension) and any(isinstance(z, ast.Name) and z.id == name
+                                                for z in ast.walk(y.target)):
+      return v.x(y.iter, at=v.node_of(call).id)
+  for l in reversed(v.enclosing_loops(st)):
+    if isinstance(l, ast.For) and any(isinstance(z, ast.Name) and z.id == name
+                                      for z in ast.walk(l.target)):
+      return v.x(l.iter)
+  return None
+
+
+def _provenance(run, R5, w, mod, fn, v, expr, spec, depth):
+  """Every value `expr` can have is a Schedule parsed from `spec` itself."""
+  if depth > 3:
+    raise AnalysisError("%s: provenance of the schedule object is too indirect" % fn.qualname)
+  nid = v.point_of(expr)
+  alts = _alternatives(v, expr, nid)
+  for (e, at) in alts:
+    if isinstance(e, ast.Call) and dotted(e.func) in mod.classes:
+      arg = v.x(e.args[0], at=at) if len(e.args) == 1 and not e.keywords else None
+      ok = arg is not None and text(arg) == spec
+      if not ok and arg is not None and not _folds_case(arg):
+        raise AnalysisError("%s: %s is built from %s; cannot tell whether that is the spec as "
+                            "written" % (fn.qualname, dotted(e.func), short(arg)))
+      run.ob(R5, fn.qualname, "%s(%s)" % (dotted(e.func), short(arg) if arg is not None else "?"),
+             "the schedule is parsed from the spec as written (letter case matters in slots)", ok,
+             fi=fn.fi, node=e)
+    elif isinstance(e, ast.Call) and dotted(e.func) in mod.functions:
+      callee = w.fn(M + "." + dotted(e.func))
+      b = H.bind_args(e, callee.fi.params())
+      hits = [p for p, a in (b or {}).items() if text(v.x(a, at=at)) == spec]
+      if len(hits) != 1:
+        if b and any(_folds_case(v.x(a, at=at)) for a in b.values()):
+          run.ob(R5, fn.qualname, short(e), "the spec is handed on as written", False,
+                 fi=fn.fi, node=e)
+          continue
+        raise AnalysisError("%s: cannot follow the spec into %s" % (fn.qualname, short(e)))
+      cv = H.View(callee)
+      rets = [s for s in walk_no_nested(callee.node) if isinstance(s, ast.Return)]
+      if not rets:
+        raise AnalysisError("%s returns nothing" % callee.qualname)
+      for r in rets:
+        _provenance(run, R5, w, mod, callee, cv, r.value, hits[0], depth + 1)
+      _memo_stores(run, R5, w, mod, callee, cv, hits[0])
+    elif _memo_read(mod, e) is not None:
+      table, key = _memo_read(mod, e)
+      _memo_key(run, R5, fn, v, table, key, at, spec, e)
+    elif isinstance(e, ast.Constant) and e.value is None:
+      continue          # `x = memo.get(k)` / `if x is None: x = Schedule(..)`: the None never
+                        # reaches .series() when the other alternatives are fine
+    else:
+      raise AnalysisError("%s: cannot tell where the schedule object %s comes from"
+                          % (fn.qualname, short(e)))
+
+
+def _alternatives(v, expr, nid):
+  """[(value expr, node id)] for every binding of the local `expr` that may reach nid (plain
+  assignments only), or the expression itself."""
+  if not isinstance(expr, ast.Name) or nid is None:
+    return [(expr, nid)]
+  defs = v.reaching(expr.id, nid)
+  if not defs:
+    return [(expr, nid)]
+  out = []
+  for d in sorted(defs):
+    val = v._plain_value(expr.id, d)
+    if val is None:
+      raise AnalysisError("%s: %s is bound by something other than a plain assignment"
+                          % (v.fn.qualname, expr.id))
+    if isinstance(val, ast.Name):
+      out.extend(_alternatives(v, val, d))
+    else:
+      out.append((val, d))
+  return out
+
+
+def _memo_read(mod, e):
+  """(table name, key expr) when e reads a module-level dict: T.get(k) / T[k]"""
+  if isinstance(e, ast.Call) and isinstance(e.func, ast.Attribute) and e.func.attr == "get" and \
+      isinstance(e.func.value, ast.Name) and e.func.value.id in mod.assigns and e.args:
+    return e.func.value.id, e.args[0]
+  if isinstance(e, ast.Subscript) and isinstance(e.value, ast.Name) and e.value.id in mod.assigns:
+    return e.value.id, e.slice
+  return None
+
+
+def _memo_key(run, R5, fn, v, table, key, at, spec, node):
+  k = v.x(key, at=at)
+  same = text(k) == spec
+  if not same and not _folds_case(k):
+    raise AnalysisError("%s: memo %s is keyed by %s; cannot tell whether distinct specs get "
+                        "distinct keys" % (fn.qualname, table, short(k)))
+  run.ob(R5, fn.qualname, "%s[%s]" % (table, short(k, 50)), "parsed schedules are remembered "
+         "under the spec as written: two specs that differ only in letter case (`+2m` / `+2M`) "
+         "are different schedules", same, fi=fn.fi, node=node)
+
+
+def _memo_stores(run, R5, w, mod, fn, v, spec):
+  for n in fn.cfg.nodes:
+    s = n.stmt
+    if n.kind == "stmt" and isinstance(s, ast.Assign):
+      for t in s.targets:
+        if isinstance(t, ast.Subscript) and isinstance(t.value, ast.Name) and \
+            t.value.id in mod.assigns and not v.reaching(t.value.id, n.id):
+          _memo_key(run, R5, fn, v, t.value.id, t.slice, n.id, spec, s)
 
 
 S = "sandbox/grist/functions/schedule.py"
@@ -490,6 +736,21 @@ VARIANTS = [
   ("duplicate-unit-raises-keyerror", S,
    "            raise ValueError(\"Duplicate unit %s in '%s'\" % (unit, slot_str))",
    "            raise KeyError(\"Duplicate unit %s in '%s'\" % (unit, slot_str))", "C35-R4"),
+  ("spec-lowercased-before-parsing", S, "  return Schedule(schedule).series(",
+   "  return Schedule(schedule.lower()).series(", "C35-R5"),
+  ("slot-texts-lowercased", S, "for t in parts[1].split(\",\")]",
+   "for t in parts[1].lower().split(\",\")]", "C35-R5"),
+  ("seeded-parse-cache-keyed-by-lowercased-spec", S,
+   "  return Schedule(schedule).series(start or NOW(), end, count=count)\n",
+   "  return _get_schedule(schedule).series(start or NOW(), end, count=count)\n\n"
+   "_schedule_cache = {}\n\n"
+   "def _get_schedule(spec_string):\n"
+   "  key = spec_string.strip().lower()\n"
+   "  sched = _schedule_cache.get(key)\n"
+   "  if sched is None:\n"
+   "    sched = Schedule(spec_string)\n"
+   "    _schedule_cache[key] = sched\n"
+   "  return sched\n", "C35-R5"),
   ("spec-without-colon-unchecked", S,
    "    if len(parts) != 2:\n"
    "      raise ValueError(\"schedule must have the form INTERVAL: SLOTS, ...\")\n", "", "C35-R4"),
